@@ -60,6 +60,7 @@ type Clause struct {
 type LoopContract struct {
 	Invariants []*Clause
 	Decreases  []Expr
+	ReadsInput string // non-empty: terminates because every iteration consumes input (inventoried assumption)
 }
 
 type GhostSet struct {
@@ -764,6 +765,13 @@ func parseSpecFile(path string) (*SpecFile, error) {
 						return nil, fail(c, "%v", err)
 					}
 					lc.Decreases = append(lc.Decreases, e)
+				}
+			case "reads-input":
+				// loop K reads-input <why>: every iteration consumes input from a reader that
+				// eventually returns an error (end of input, deadline): an assumption, inventoried
+				lc.ReadsInput = strings.TrimSpace(body)
+				if lc.ReadsInput == "" {
+					lc.ReadsInput = "each iteration consumes input"
 				}
 			default:
 				return nil, fail(c, "unknown loop clause %s", f[1])
